@@ -107,6 +107,7 @@ pub fn gen_result(r: &mut Rng, text: &str) -> ResultSpec {
     let rc = if r.chance(1, 2) { 0 } else { *r.pick(RESULT_CODES) };
     ResultSpec {
         rc,
+        rc_wide: None,
         matched: if r.chance(1, 4) { format!("dc=m,{text}") } else { String::new() },
         text: text.to_string(),
         refs: if r.chance(1, 5) { Some((0..r.usize(4)).map(|i| format!("ldap://h{i}/{text}")).collect()) } else { None },
@@ -1452,11 +1453,22 @@ pub fn gen_rich_result(r: &mut Rng, op: &OpSpec) -> (ResultSpec, Option<Vec<Ctl>
         0 => 0,
         1 => r.below(124) as u32,
         2 => *r.pick(RESULT_CODES),
-        _ => r.below(2147483648) as u32,
+        _ => {
+            if r.chance(1, 4) {
+                // upper half of the 32-bit range (never the very top, which the model keeps as a marker)
+                2147483648 + r.below(2147483647) as u32
+            } else {
+                r.below(2147483648) as u32
+            }
+        }
     };
+    // now and then a code that does not fit 32 bits at all: whatever number the caller then sees, it must not
+    // read as success
+    let rc_wide = if r.chance(1, 40) { Some(*r.pick(&[1u64 << 32, (1u64 << 32) + 10, (1u64 << 32) + 5, (1u64 << 32) + 6, 1u64 << 40, (1u64 << 63) - 1, 0x1_0000_0031])) } else { None };
     let text = |r: &mut Rng| if r.chance(1, 50) { gen_string(r, 20_000) } else if r.chance(1, 3) { String::new() } else { gen_string(r, 30) };
     let mut res = ResultSpec {
         rc,
+        rc_wide,
         matched: text(r),
         text: text(r),
         refs: if r.chance(1, 3) { Some((0..r.usize(5)).map(|i| format!("ldap://h{i}/{}", gen_string(r, 8))).collect()) } else { None },
@@ -2247,7 +2259,8 @@ pub fn gen_estab_tls(seed: u64) -> Scenario {
         match r.below(100) {
             0..=39 => StartTlsResp::Success,
             // any non-zero code, with the codes some helper of the library treats as "not an error" well represented
-            40..=59 => StartTlsResp::Code(*r.pick(&[10, 10, 10, 5, 6, 14, 1, 2, 8, 13, 49, 52, 53, 80, 118, 4096])),
+            40..=56 => StartTlsResp::Code(*r.pick(&[10, 10, 10, 5, 6, 14, 1, 2, 8, 13, 49, 52, 53, 80, 118, 4096, 2147483648, 4294967295])),
+            57..=59 => StartTlsResp::CodeWide(*r.pick(&[1u64 << 32, (1u64 << 32) + 10, 1u64 << 40])),
             60..=67 => StartTlsResp::Garbage,
             68..=75 => StartTlsResp::Close,
             76..=83 => StartTlsResp::Silent,
